@@ -46,6 +46,25 @@ One case = one object + one family of scenarios:
           100 kB - 1 MB messages, metadata, external ids; raw manifests of 4 kB,
           64 kB, 1 MB +-1): ids, flips, raw manifests, evolve - evaluated by the
           oracle only (hashlib), the model's executable SHA-1 being too slow
+  foreign objects built by the generators AND builders of the other properties'
+          harnesses (C02 directories, C03 revisions, C04 releases, C05 snapshots,
+          C15 external ids / metadata, C12 all seven classes), imported
+          defensively (whatever is missing, renamed, raises or is one of their
+          deliberately invalid cases contributes nothing): no id, right id, bit
+          flips, truncated, random id, raw manifests, evolve, from_dict - every
+          valid object, whatever its content, is accepted with its right id
+Own generators (structural variety): revisions with 0 / 1 / 2 / many parents,
+repeated parents (adjacent, apart, all the same), a parent equal to the directory
+id, an empty parent id, every accepted presence combination of author / committer
+/ dates, repeated extra-header keys, empty values, legacy metadata; releases of
+every target type, without author, author without date, empty / None message,
+empty name, no target; directories empty / up to 25 entries, odd perms (incl.
+integer literals of the code under test), names sorting around '/', shared
+targets; snapshots with dangling branches, aliases to missing / self / chains /
+cycles, empty name, all-dangling, all-unresolved; external ids with versions 0,
+negative, huge, bool, literals of the code, payload both / none; metadata with
+every context subset per target type; awkward byte shapes and literals harvested
+from the code under test (gitobj_common, imported defensively).
 Across the families (audit round): the three reads compute_hash() / check() /
 swhid() are made in a random order with repetitions (a read must not change the
 object nor depend on earlier reads); the source of an evolve is sometimes read
@@ -81,7 +100,10 @@ THEOREMS = ["C07_init_id", "C07_construct_id", "C07_explicit_id_kept", "C07_chec
             "C07_satisfiable", "C07_init_id_extid", "C07_init_id_emd"]
 RULE = ("per kind (origin, snapshot, release, revision, directory, raw extrinsic metadata, external id) objects from "
         "own pure-Python generators (prefix-chain names, all presence combinations, legacy extra headers, aliases, non-ASCII "
-        "URLs, all context combinations, payloads); reads compute_hash/check/swhid in random order with repetitions; per "
+        "URLs, all context combinations, payloads; repeated / empty / directory-equal / many parents, repeated header keys, "
+        "alias chains and cycles, names around '/', odd perms, versions from the code's integer literals, wide byte shapes and "
+        "source literals) plus the family foreign (objects built by the generators and builders of the C02/C03/C04/C05/C12/C15 "
+        "harnesses, imported defensively, run through no id / right id / flips / raw / evolve / from_dict); reads compute_hash/check/swhid in random order with repetitions; per "
         "object the families big (oracle only: 100 kB - 1 MB manifests), and: ids (no id, right id, all 160 single-bit flips, truncated, extended, random, zero id), raw "
         "(needed / empty / unneeded raw manifests x no id, right id, attributes' id, random id, flips), evolve (every "
         "attrs field with a changed value and None where optional, no-argument evolve on a wrong id, evolve under a raw "
@@ -168,10 +190,10 @@ CORE_T = ["cnt", "dir", "rev", "rel", "snp"]
 def gen_extid(rng):
     pl = rng.random() < 0.4
     return {"extid_type": rng.choice(["hg-nodeid", "git-sha1", "x", "", "tarball-sha256"]),
-            "extid": bytes(rng.randrange(256) for _ in range(rng.choice([0, 1, 20, 32]))).hex() if rng.random() < 0.8
-            else rng.choice([b"a\nb", b" lead", b"\n"]).hex(),
+            "extid": bytes(rng.randrange(256) for _ in range(rng.choice([0, 1, 20, 32]))).hex() if rng.random() < 0.7
+            else rng.choice([b"a\nb", b" lead", b"\n", _wide(rng)]).hex(),
             "target": "swh:1:%s:%s" % (rng.choice(CORE_T), _sha(rng).hex()),
-            "version": rng.choice([0, 0, 1, 2, 10 ** 12]),
+            "version": rng.choice([0, 0, 1, 2, -1, 10 ** 12, True, False, _ints(rng)]),
             "payload_type": rng.choice(["disk-history", "p"]) if pl else None,
             "payload": _sha(rng).hex() if pl else None}
 
@@ -191,7 +213,7 @@ def gen_rem(rng):
             "directory": None}
     allowed = {"origin": CORE_T, "snapshot": ["rel", "rev", "dir", "cnt"], "release": ["rev", "dir", "cnt"],
                "revision": ["dir", "cnt"], "path": ["dir", "cnt"], "directory": ["cnt"]}
-    p = rng.choice([0.0, 0.4, 0.4, 1.0])
+    p = rng.choice([0.0, 0.4, 0.5, 0.5, 1.0])          # each allowed context independently: every subset occurs
     if tt in allowed["origin"] and rng.random() < p:
         spec["origin"] = rng.choice(["https://example.org/é", "http://o/\n x", "o"])
         if rng.random() < 0.6:
@@ -224,18 +246,74 @@ def _names(rng, n, extra=()):
     return sorted(names)
 
 
+def _wide(rng):
+    """a byte string of an awkward shape: the shared wide generator / a literal harvested from the code under test when
+    the shared helpers are available, an own value otherwise (never raises)"""
+    try:
+        from . import gitobj_common as GC
+        r = rng.random()
+        if r < 0.5:
+            v = GC.gen_bytes_wide(rng)
+        elif r < 0.8:
+            v = GC.splice_token(rng, rng.choice(_VALUES), "bytes")
+        else:
+            v = rng.choice(GC.source_tokens("bytes"))
+        if isinstance(v, (bytes, bytearray)):
+            return bytes(v)
+    except Exception:
+        pass
+    return rng.choice(_VALUES + [b"a\r\nb", b"\r", b"a\x00b", b"\n", b"\n\n", b" ", b"x ", b"refs/heads/", b"swh:1:"])
+
+
+def _ints(rng):
+    try:
+        from . import gitobj_common as GC
+        l = [i for i in GC.source_ints() if isinstance(i, int)]
+        if l:
+            return rng.choice(l)
+    except Exception:
+        pass
+    return rng.choice([0, 1, -1, 2, 255, 256, 65535, 65536, 2 ** 31, 2 ** 63, 10 ** 12])
+
+
 def gen_directory(rng):
     """entries [name hex, type, target hex, perms]: distinct names without '/'"""
-    es = [[nm.hex(), rng.choice(["file", "dir", "rev"]), _sha(rng).hex(), rng.choice(_PERMS + [rng.randrange(65536)])]
-          for nm in _names(rng, rng.choice([0, 1, 2, 3, 3, 5, 8]))]
+    names = set(_names(rng, rng.choice([0, 1, 2, 3, 3, 5, 8, 13, 25])))
+    if rng.random() < 0.4:
+        # names sorting around '/' (a directory sorts as name + '/'): x, x., x-, x0, x\x2e..., and odd shapes
+        x = rng.choice([b"a", b"lib", b""])
+        names |= {x + t for t in rng.sample([b"", b".", b"-", b"0", b".a", b"-a", b"0a", b"\x2e\x2f"[:1], b"\x30", b" ", b"\xff"], 4)}
+    if rng.random() < 0.3:
+        names.add(_wide(rng).replace(b"/", b"_").replace(b"\x00", b"_"))
+    tgt = _sha(rng)
+    es = [[nm.hex(), rng.choice(["file", "dir", "rev"]), (tgt if rng.random() < 0.15 else _sha(rng)).hex(),
+           rng.choice(_PERMS + [rng.randrange(65536), abs(_ints(rng)) % (2 ** 32)])] for nm in sorted(names)]
     rng.shuffle(es)
     return {"entries": es}
 
 
 def gen_snapshot(rng):
     """branches [name hex, target type | None (dangling), target hex]: aliases to existing / missing / own names"""
-    names = _names(rng, rng.choice([0, 1, 2, 3, 3, 5]), extra=[b"/"])
+    names = _names(rng, rng.choice([0, 1, 2, 3, 3, 5, 8]), extra=[b"/"])
+    if rng.random() < 0.3:
+        names = sorted(set(names) | {b"", _wide(rng).replace(b"\x00", b"_")[:40]})
     br = []
+    shape = rng.choice(["mixed", "mixed", "chain", "cycle", "all-dangling", "all-alias-to-missing"])
+    if shape in ("chain", "cycle") and len(names) >= 2:
+        # a -> b -> c -> ... (-> a for a cycle; the last one resolved otherwise)
+        for i, nm in enumerate(names):
+            if i + 1 < len(names):
+                br.append([nm.hex(), "alias", names[i + 1].hex()])
+            elif shape == "cycle":
+                br.append([nm.hex(), "alias", names[0].hex()])
+            else:
+                br.append([nm.hex(), "revision", _sha(rng).hex()])
+        rng.shuffle(br)
+        return {"branches": br}
+    if shape == "all-dangling":
+        return {"branches": [[nm.hex(), None, None] for nm in names]}
+    if shape == "all-alias-to-missing":
+        return {"branches": [[nm.hex(), "alias", (nm + b"?").hex()] for nm in names]}
     for nm in names:
         r = rng.random()
         if r < 0.15:
@@ -266,25 +344,36 @@ def gen_revision(rng):
     """every accepted presence combination of author / date / committer / committer_date; extra headers given as the
     attribute or the legacy way inside metadata"""
     a, cm = rng.random() < 0.75, rng.random() < 0.75
-    parents = [_sha(rng).hex() for _ in range(rng.choice([0, 1, 1, 2, 3]))]
-    if parents and rng.random() < 0.1:
-        parents[0] = ""
+    directory = _sha(rng)
+    pool = [_sha(rng) for _ in range(3)]
+    pshape = rng.choice(["none", "one", "two", "repeated", "repeated-apart", "all-same", "directory-id", "empty-id", "many",
+                         "many-with-repeats", "octopus"])
+    parents = {"none": [], "one": pool[:1], "two": pool[:2], "repeated": [pool[0], pool[0]],
+               "repeated-apart": [pool[0], pool[1], pool[0]], "all-same": [pool[2]] * rng.choice([3, 5]),
+               "directory-id": [directory] + pool[:rng.choice([0, 1])], "empty-id": [b""] + pool[:rng.choice([0, 2])],
+               "many": [_sha(rng) for _ in range(rng.choice([8, 17]))],
+               "many-with-repeats": [rng.choice(pool) for _ in range(rng.choice([6, 12]))], "octopus": pool}[pshape]
+    parents = [p.hex() for p in parents]
     keys = [b"gpgsig", b"mergetag", b"encoding", b"x-custom", b"HG:extra", b"a", b"\xff"]
-    msg = rng.choice([None, b"", rng.choice(_VALUES), b"subject\n\nbody\n"])
+    msg = rng.choice([None, b"", rng.choice(_VALUES), b"subject\n\nbody\n", _wide(rng)])
+    extra = [[rng.choice(keys).hex(), rng.choice(_VALUES + [_wide(rng)]).hex()] for _ in range(rng.choice([0, 0, 1, 2, 4]))]
+    if extra and rng.random() < 0.4:
+        extra.append([extra[0][0], rng.choice([b"", extra and bytes.fromhex(extra[0][1])]).hex()])      # a repeated key
+    if rng.random() < 0.15:
+        extra = [[k.hex(), b"".hex()] for k in rng.sample(keys, 3)]                                        # only empty values
     return {"message": None if msg is None else msg.hex(),
             "author": rng.choice(_FULLNAMES).hex() if a else None, "date": _gen_date(rng) if a and rng.random() < 0.8 else None,
             "committer": rng.choice(_FULLNAMES).hex() if cm else None,
             "committer_date": _gen_date(rng) if cm and rng.random() < 0.8 else None,
-            "directory": _sha(rng).hex(), "parents": parents,
-            "extra": [[rng.choice(keys).hex(), rng.choice(_VALUES).hex()] for _ in range(rng.choice([0, 0, 1, 2, 4]))],
+            "directory": directory.hex(), "parents": parents, "extra": extra,
             "legacy": rng.random() < 0.3, "synthetic": rng.random() < 0.5,
             "rtype": rng.choice(["git", "tar", "dsc", "svn", "hg", "cvs", "bzr"])}
 
 
 def gen_release(rng, no_target=False):
     a = rng.random() < 0.7
-    msg = rng.choice([None, b"", rng.choice(_VALUES)])
-    return {"name": rng.choice(_VALUES).hex(), "message": None if msg is None else msg.hex(),
+    msg = rng.choice([None, b"", rng.choice(_VALUES), _wide(rng)])
+    return {"name": rng.choice(_VALUES + [_wide(rng)]).hex(), "message": None if msg is None else msg.hex(),
             "target": None if no_target else _sha(rng).hex(),
             "ttype": rng.choice(["content", "directory", "revision", "release", "snapshot"]),
             "author": rng.choice(_FULLNAMES).hex() if a else None,
@@ -301,6 +390,64 @@ def gen_specs(rng, kind, n):
     g = {"origin": gen_origin, "extid": gen_extid, "raw_extrinsic_metadata": gen_rem, "directory": gen_directory,
          "snapshot": gen_snapshot, "revision": gen_revision}[kind]
     return [g(rng) for _ in range(n)]
+
+
+# ------------------------------------------------------------------ objects of the other properties' generators
+_CLS_KIND = {"Origin": "origin", "Snapshot": "snapshot", "Release": "release", "Revision": "revision", "Directory": "directory",
+             "RawExtrinsicMetadata": "raw_extrinsic_metadata", "ExtID": "extid"}
+
+
+def _foreign_kind(src, fc):
+    if src == "c15":
+        return "extid" if fc.get("kind") == "extid" else "raw_extrinsic_metadata"
+    if src == "c12":
+        return _CLS_KIND.get(fc.get("cls")) if fc.get("kind") == "obj" else None
+    return {"c02": "directory", "c03": "revision", "c04": "release", "c05": "snapshot"}[src]
+
+
+def _foreign_build(src, fc):
+    """the object a neighbouring harness builds for ITS case (their builders; any exception = not available / not valid)"""
+    import importlib
+    m = importlib.import_module("harness." + src)
+    if src == "c02":
+        return m._build(fc["entries"])
+    if src == "c05":
+        return m._build(fc["branches"])
+    if src in ("c03", "c04"):
+        return m._build(fc)
+    if src == "c15":
+        return m._mk_extid(fc) if fc.get("kind") == "extid" else m._build_emd(fc, fc["date"])
+    if src == "c12":
+        return m.realize(m.dec(fc["w"]))
+    raise KeyError(src)
+
+
+def gen_foreign(rng, tier):
+    """cases of the generators of C02 / C03 / C04 / C05 / C12 / C15 (structural variety decided elsewhere: repeated
+    parents, odd perms, alias cycles, every context subset, legacy layouts, literals of the code under test ...), each
+    guarded: a generator that is missing, renamed or raises contributes nothing"""
+    import importlib
+    per = 40 if tier == "quick" else 500
+    out = []
+    for src in ("c02", "c03", "c04", "c05", "c15", "c12"):
+        try:
+            m = importlib.import_module("harness." + src)
+            pool = list(m.gen(random.Random(rng.getrandbits(64)), "quick"))
+        except Exception:
+            continue
+        cand = []
+        for fc in pool:
+            try:
+                k = _foreign_kind(src, fc)
+                if k is not None and len(repr(fc)) < 20000:
+                    cand.append((k, fc))
+            except Exception:
+                pass
+        n = per * (2 if src in ("c12", "c15") else 1)
+        sub = random.Random(rng.getrandbits(64))
+        for k, fc in (cand if len(cand) <= n else sub.sample(cand, n)):
+            out.append({"kind": k, "what": "foreign", "src": src, "spec": fc, "seed": sub.getrandbits(32)})
+    return out
 
 
 def gen(rng, tier):
@@ -321,15 +468,32 @@ def gen(rng, tier):
                               "seed": rng.getrandbits(32)})
     # the evidence samples are taken from the head of the stream: keep them small
     head = [c for c in cases[:4 * len(KINDS)] if c["what"] in ("evolve", "raw")][:6]
-    return head + [c for c in cases if not any(c is h for h in head)]
+    cases = head + [c for c in cases if not any(c is h for h in head)]
+    try:
+        foreign = gen_foreign(rng, tier)
+    except Exception:
+        foreign = []
+    # spread the foreign objects over the stream (early detection whatever the family)
+    step = max(1, len(cases) // (len(foreign) + 1))
+    out = []
+    fi = iter(foreign)
+    for i, c in enumerate(cases):
+        out.append(c)
+        if i % step == step - 1:
+            f = next(fi, None)
+            if f is not None:
+                out.append(f)
+    return out + list(fi)
 
 
 def nontrivial(c):
-    return c.get("what") in ("ids", "raw", "evolve", "shapes", "big")
+    return c.get("what") in ("ids", "raw", "evolve", "shapes", "big", "foreign")
 
 
 def classify(c):
     ks = ["kind=" + c["kind"], "family=" + c["what"]]
+    if c["what"] == "foreign":
+        ks.append("foreign:" + str(c.get("src")))
     if c["kind"] == "release" and c["spec"].get("target") is None:
         ks.append("no-manifest(release without target)")
     if c["what"] == "shapes":
@@ -660,7 +824,7 @@ def shapes_of(value):
     return []
 
 
-def alt_values(kind, name, cur, a, rng):
+def _alt_values_raw(kind, name, cur, a, rng):
     """new values 'of the right type' for a field, chosen from the current value's
     type (and the field's name for containers), so that a field added to a class
     is exercised without touching this file; unknown shapes -> the same value"""
@@ -711,7 +875,10 @@ def alt_values(kind, name, cur, a, rng):
                                                                    microseconds=cur.timestamp.microseconds),
                                            offset_bytes=cur.offset_bytes))
     elif isinstance(cur, datetime.datetime):
-        out.append(cur + datetime.timedelta(days=1, seconds=1))
+        try:
+            out.append(cur + datetime.timedelta(days=1, seconds=1))
+        except OverflowError:                      # the last day of year 9999
+            out.append(cur - datetime.timedelta(days=1, seconds=1))
     elif isinstance(cur, (CoreSWHID, ExtendedSWHID)):
         out.append(type(cur)(object_type=cur.object_type, object_id=_flip(cur.object_id, 7)))
     elif isinstance(cur, M.MetadataAuthority):
@@ -752,6 +919,15 @@ def alt_values(kind, name, cur, a, rng):
     return out
 
 
+def alt_values(kind, name, cur, a, rng):
+    """never raises: a value this harness cannot vary is left as it is"""
+    try:
+        out = _alt_values_raw(kind, name, cur, a, rng)
+        return out if out else [cur]
+    except Exception:
+        return [cur]
+
+
 def impl(c):
     """runs every scenario of the case on the real classes; each step carries the
     arguments the model needs (the attrs manifest comes from the library)"""
@@ -759,9 +935,21 @@ def impl(c):
     kind, what = c["kind"], c["what"]
     rng = random.Random(c["seed"])
     only = c.get("only")
+    foreign_raw = None
+    if what == "foreign":
+        # the object is built by the neighbouring harness' own builder; what cannot be built (their API changed, the case
+        # is one of their deliberately invalid ones, the class is not the expected one) is not this property's matter
+        try:
+            fobj = _foreign_build(c["src"], c["spec"])
+            if type(fobj) is not _cls(kind):
+                raise TypeError("not a " + kind)
+            fkw = {a.name: getattr(fobj, a.name) for a in attr.fields(type(fobj)) if a.name not in ("id", "raw_manifest")}
+            foreign_raw = getattr(fobj, "raw_manifest", None)
+        except Exception as e:
+            return {"attrs": None, "has_raw": False, "steps": [], "foreign_unavailable": exc_class(e)}
     try:
         cls = _cls(kind)
-        kw = base_kwargs(kind, c["spec"])
+        kw = fkw if what == "foreign" else base_kwargs(kind, c["spec"])
         if c.get("big"):
             kw = _inflate(kind, kw, int(c["big"]))
         probe = cls(**kw, id=b"\x01" * 20)          # explicit id: nothing is hashed
@@ -1063,6 +1251,36 @@ def impl(c):
             evolve_step("anonymized:%s" % f0, _ABSENT, b"", {f0: v0}, base_obj=anon)
             if c.get("full"):
                 evolve_step("anonymized:same:%s" % f0, _ABSENT, b"", {f0: getattr(anon, f0)}, base_obj=anon)
+    elif what == "foreign":
+        # every valid object, whatever its content, with its right id: accepted; with another id: rejected
+        wrong = _flip(right, rng.randrange(160)) if right is not None else _sha(rng)
+        build_step("noid", _ABSENT, b"")
+        if right is not None:
+            build_step("right", _ABSENT, right)
+            for _ in range(5):
+                k = rng.randrange(160)
+                build_step("flip-%d" % k, _ABSENT, _flip(right, k))
+            build_step("trunc19", _ABSENT, right[:19])
+        build_step("random", _ABSENT, _sha(rng))
+        if has_raw:
+            build_step("raw-junk-noid", junk, b"")
+            if am is not None:
+                build_step("raw-same-noid", am, b"")
+            if foreign_raw is not None:
+                build_step("raw-their-own-noid", foreign_raw, b"")
+        names = [a.name for a in attr.fields(cls) if a.name not in ("id", "raw_manifest")]
+        base_raw = junk if (am is None and has_raw) else _ABSENT
+        evolve_step("noarg-on-wrong-id", base_raw, wrong, {})
+        evolve_step("all-fields-same", base_raw, b"", dict(kw))
+        f0 = names[rng.randrange(len(names))]
+        evolve_step("field:%s=alt0" % f0, base_raw, b"", {f0: alt_values(kind, f0, getattr(probe, f0), attr.fields_dict(cls)[f0], rng)[0]})
+        try:
+            d0 = _construct(cls, kw, base_raw, b"").to_dict()
+            if not _differs(cls.from_dict(dict(d0)), probe, names):
+                d0.pop("id", None)
+                build_step("from_dict:noid", base_raw, b"", lambda: cls.from_dict(dict(d0)), names)
+        except Exception:
+            pass
     elif what == "big":
         # manifests far beyond one hash block / buffer size: oracle only (the model's executable SHA-1 is too slow)
         wrong = _flip(right, rng.randrange(160)) if right is not None else _sha(rng)
